@@ -168,4 +168,264 @@ theorem ckFeed_final (cfg : CkCfg) (hmf : cfg.maxField ≥ 1026) {l : Bytes} (h 
   rw [h1]
   simp [ckStep, endsCrlfCrlf, lf, cr]
 
+/-! ### trailer sections -/
+
+/-- a trailer section `tr` (everything behind the last-chunk line `last`, including the final CRLF; `[cr, lf]` =
+    no trailer fields): NUL-free, its first CRLFCRLF -- counted from the CRLF of the last-chunk line -- is its
+    end, and it fits max-request-field-size together with the last-chunk line -/
+structure TrailerOk (cfg : CkCfg) (last tr : Bytes) : Prop where
+  nonempty : tr ≠ []
+  nul : (0 : UInt8) ∉ tr
+  ends : endsCrlfCrlf ((last ++ tr).drop (last.length - 2)) = true
+  first : ∀ k, k < tr.length → 0 < k → endsCrlfCrlf ((last ++ tr.take k).drop (last.length - 2)) = false
+  size : (last ++ tr).length ≤ cfg.maxField
+
+theorem ckFeed_trailer_bytes (cfg : CkCfg) (off : Nat) (out : Bytes) (ka : Bool) (after : Nat) :
+    ∀ (rest acc : Bytes), rest ≠ [] → (0 : UInt8) ∉ rest →
+    endsCrlfCrlf ((acc ++ rest).drop off) = true →
+    (∀ k, k < rest.length → 0 < k → endsCrlfCrlf ((acc ++ rest.take k).drop off) = false) →
+    (acc ++ rest).length ≤ cfg.maxField →
+    ckFeed cfg { mode := .trailer acc off false, out := out, ka := ka, after := after } rest
+      = { mode := .done, out := out, ka := ka, after := after } := by
+  intro rest
+  induction rest with
+  | nil => intro acc h; exact absurd rfl h
+  | cons b rest' ih =>
+    intro acc _ hnul hends hfirst hsize
+    have hb0 : b ≠ 0 := fun e => hnul (by simp [e])
+    rw [ckFeed_cons]
+    by_cases hre : rest' = []
+    · subst hre
+      have : ckStep cfg { mode := .trailer acc off false, out := out, ka := ka, after := after } b
+          = { mode := .done, out := out, ka := ka, after := after } := by
+        simp [ckStep, hb0, hends]
+      rw [this, ckFeed_nil]
+    · have hlen : 0 < rest'.length := List.length_pos_iff.mpr hre
+      have h1 := hfirst 1 (by simp; omega) (by omega)
+      simp only [List.take_succ_cons, List.take_zero] at h1
+      have hsz : ¬ ((acc ++ [b]).length ≥ cfg.maxField) := by
+        simp only [List.length_append, List.length_cons] at hsize ⊢
+        simp; omega
+      have : ckStep cfg { mode := .trailer acc off false, out := out, ka := ka, after := after } b
+          = { mode := .trailer (acc ++ [b]) off false, out := out, ka := ka, after := after } := by
+        simp [ckStep, hb0, h1]
+        simpa using hsz
+      rw [this]
+      apply ih (acc ++ [b]) hre (fun e => hnul (by simp [e]))
+      · simpa using hends
+      · intro k hk1 hk2
+        have := hfirst (k + 1) (by simp; omega) (by omega)
+        simpa using this
+      · simpa using hsize
+
+/-- a last-chunk line followed by a trailer section ends the body exactly at the section's end -/
+theorem ckFeed_final_trailers (cfg : CkCfg) {last tr : Bytes} (h : GoodLine last 0) (ht : TrailerOk cfg last tr)
+    (out : Bytes) (ka : Bool) (after : Nat) :
+    ckFeed cfg { mode := .hdr [] false, out := out, ka := ka, after := after } (last ++ tr)
+      = { mode := .done, out := out, ka := ka, after := after } := by
+  rw [ckFeed_append, ckFeed_lastline cfg h]
+  exact ckFeed_trailer_bytes cfg _ out ka after tr last ht.nonempty ht.nul ht.ends ht.first ht.size
+
+/-- no trailer fields: the final CRLF alone is a trailer section -/
+theorem TrailerOk.plain (cfg : CkCfg) (hmf : cfg.maxField ≥ 1026) {last : Bytes} (h : GoodLine last 0) :
+    TrailerOk cfg last [cr, lf] := by
+  obtain ⟨q, hq⟩ := goodline_ends_crlf h
+  have hshort := h.short
+  subst hq
+  simp only [List.length_append, List.length_cons, List.length_nil] at hshort
+  have hlen : (q ++ [cr, lf]).length - 2 = q.length := by simp
+  refine ⟨by simp, by decide, ?_, ?_, ?_⟩
+  · rw [hlen]; simp [endsCrlfCrlf]
+  · intro k hk1 hk2
+    have : k = 1 := by simp at hk1; omega
+    subst this
+    rw [hlen]
+    simp [endsCrlfCrlf]
+  · simp; omega
+
+/-! ### the chunk-size line against the RFC 9112 grammar -/
+
+/-- not a control character (HT allowed) -/
+def notCtl (c : UInt8) : Bool := !((c < 32 && c ≠ ht) || c = 127)
+
+def hexFold (v : Nat) (hx : Bytes) : Nat := hx.foldl (fun a d => a * 16 + ((hexVal d).getD 0).toNat) v
+
+/-- RFC 9112 §7.1 chunk-size line `chunk-size [chunk-ext] CRLF` with `n` the value of chunk-size, chunk-ext
+    relaxed to `BWS ";" *( HTAB / SP / VCHAR / obs-text )` (no structure inside the extension, but no control
+    character, in particular no bare CR or LF), BWS also allowed directly before the CRLF, at most 1023 bytes.
+    Stated without reference to the decoder. -/
+structure SizeLine (l : Bytes) (n : Nat) : Prop where
+  dec : ∃ hx bws ext, l = hx ++ bws ++ ext ++ [cr, lf] ∧ hx ≠ [] ∧ (∀ b ∈ hx, (hexVal b).isSome = true) ∧
+        hexFold 0 hx = n ∧ (∀ b ∈ bws, b = sp ∨ b = ht) ∧
+        (ext = [] ∨ (ext.head? = some 59 ∧ ext.all notCtl = true))
+  short : l.length < 1024
+
+theorem ckHex_spec : ∀ (line : Bytes) (v k v' k' : Nat), ckHex line v k = some (v', k') →
+    ∃ hx rest, line = hx ++ rest ∧ k' = k + hx.length ∧ (∀ b ∈ hx, (hexVal b).isSome = true) ∧
+      (rest.head?.bind hexVal) = none ∧ v' = hexFold v hx := by
+  intro line
+  induction line with
+  | nil =>
+    intro v k v' k' h
+    simp only [ckHex, Option.some.injEq, Prod.mk.injEq] at h
+    exact ⟨[], [], rfl, by simp [h.2], by simp, rfl, by simp [hexFold, h.1]⟩
+  | cons b rest ih =>
+    intro v k v' k' h
+    unfold ckHex at h
+    split at h
+    · rename_i hb
+      simp only [Option.some.injEq, Prod.mk.injEq] at h
+      exact ⟨[], b :: rest, rfl, by simp [h.2], by simp, by simp [hb], by simp [hexFold, h.1]⟩
+    · rename_i d hd
+      split at h
+      · simp at h
+      · obtain ⟨hx, rest', h1, h2, h3, h4, h5⟩ := ih _ _ _ _ h
+        refine ⟨b :: hx, rest', by simp [h1], by simp [h2]; omega, ?_, h4, ?_⟩
+        · intro x hx'
+          simp only [List.mem_cons] at hx'
+          rcases hx' with rfl | hx'
+          · simp [hd]
+          · exact h3 x hx'
+        · simp [hexFold, hd] at h5 ⊢; exact h5
+
+theorem lf_not_hex : hexVal lf = none := by decide
+theorem cr_not_hex : hexVal cr = none := by decide
+
+theorem sizeLine_of_facts (p line : Bytes) (v k : Nat) (hl : p ++ [lf] = line)
+    (hck : ckHex line 0 0 = some (v, k)) (hk0 : ¬ k = 0) (hcr' : line.getD (line.length - 2) 0 = cr)
+    (hshort : line.length < 1024)
+    (hcond : k = line.length - 2 ∨
+      ∃ c, ((line.drop k).dropWhile (fun b => b = sp || b = ht)).head? = some c ∧ (c = cr ∨ c = 59) ∧
+        ∀ x ∈ ((line.drop k).dropWhile (fun b => b = sp || b = ht)).take
+                (((line.drop k).dropWhile (fun b => b = sp || b = ht)).length - 2), notCtl x = true) :
+    SizeLine line v := by
+  obtain ⟨hx, rest, h1, h2, h3, h4, h5⟩ := ckHex_spec _ _ _ _ _ hck
+  simp only [Nat.zero_add] at h2
+  have hxne : hx ≠ [] := by
+    intro e; subst e; simp at h2; exact hk0 h2
+  -- the line is q ++ [cr, lf]
+  obtain ⟨q, hq⟩ : ∃ q, p = q ++ [cr] := by
+    subst hl
+    have hlen : (p ++ [lf]).length - 2 = p.length - 1 := by simp
+    rw [hlen] at hcr'
+    cases hpl : p.getLast? with
+    | none =>
+      have : p = [] := by simpa [List.getLast?_eq_none_iff] using hpl
+      subst this
+      simp [lf, cr] at hcr'
+    | some c =>
+      obtain ⟨q, hq⟩ := List.getLast?_eq_some_iff.mp hpl
+      subst hq
+      have : (q ++ [c] ++ [lf]).getD ((q ++ [c]).length - 1) 0 = c := by
+        simp [List.getD_eq_getElem?_getD]
+      rw [this] at hcr'
+      subst hcr'
+      exact ⟨q, rfl⟩
+  subst hq
+  have hline : line = q ++ [cr, lf] := by rw [← hl]; simp
+  refine ⟨?_, hshort⟩
+  rcases hcond with hkn | ⟨c, hhd, hc, hall⟩
+  · -- nothing between the size and CRLF
+    have hlen : hx.length = q.length := by rw [← h2, hkn, hline]; simp
+    have hsplit : hx ++ rest = q ++ [cr, lf] := by rw [← h1, hline]
+    have hq : hx = q := List.append_inj_left hsplit hlen
+    exact ⟨hx, [], [], by rw [hline, hq]; simp, hxne, h3, h5.symm, by simp, .inl rfl⟩
+  · have hdrop : line.drop k = rest := by
+      rw [h1, h2]; simp
+    rw [hdrop] at hhd hall
+    generalize hr' : rest.dropWhile (fun b => b = sp || b = ht) = rest' at hhd hall
+    have hrsplit : rest = rest.takeWhile (fun b => b = sp || b = ht) ++ rest' := by
+      rw [← hr']; exact (List.takeWhile_append_dropWhile).symm
+    generalize hbw : rest.takeWhile (fun b => b = sp || b = ht) = bws at hrsplit
+    have hbws : ∀ b ∈ bws, b = sp ∨ b = ht := by
+      intro b hb
+      rw [← hbw] at hb
+      have hall' := List.all_takeWhile (l := rest) (p := fun b => b = sp || b = ht)
+      have := List.all_eq_true.mp hall' b hb
+      simpa using this
+    -- rest' is a suffix of q ++ [cr, lf] of length >= 2
+    have hfull : hx ++ bws ++ rest' = q ++ [cr, lf] := by
+      rw [← hline, h1, hrsplit]; simp
+    have hr2 : 2 ≤ rest'.length := by
+      have hne : rest' ≠ [] := by intro e; simp [e] at hhd
+      apply Decidable.byContradiction
+      intro hlt
+      have h1' : rest'.length = 1 := by
+        have := List.length_pos_iff.mpr hne; omega
+      obtain ⟨x, hx1⟩ := List.length_eq_one_iff.mp h1'
+      subst hx1
+      have hlast := congrArg List.getLast? hfull
+      simp at hlast
+      simp at hhd
+      subst hhd hlast
+      rcases hc with hc | hc <;> simp [lf, cr] at hc
+    have hm : (hx ++ bws).length ≤ q.length := by
+      have := congrArg List.length hfull
+      simp at this; simp; omega
+    have hrest' : rest' = q.drop (hx ++ bws).length ++ [cr, lf] := by
+      have h1' : (hx ++ bws ++ rest').drop (hx ++ bws).length = rest' := by simp
+      rw [hfull, List.drop_append_of_le_length hm] at h1'
+      exact h1'.symm
+    generalize hext : q.drop (hx ++ bws).length = ext at hrest'
+    have htake : rest'.take (rest'.length - 2) = ext := by
+      rw [hrest']; simp
+    rw [htake] at hall
+    have hq : q = hx ++ bws ++ ext := by
+      have := List.take_append_drop (hx ++ bws).length q
+      rw [hext] at this
+      have htk : q.take (hx ++ bws).length = hx ++ bws := by
+        have h2' : (hx ++ bws ++ rest').take (hx ++ bws).length = hx ++ bws := List.take_left' rfl
+        rw [hfull, List.take_append_of_le_length hm] at h2'
+        exact h2'
+      rw [htk] at this
+      exact this.symm
+    refine ⟨hx, bws, ext, by rw [hline, hq], hxne, h3, h5.symm, hbws, ?_⟩
+    cases hex : ext with
+    | nil => exact .inl rfl
+    | cons e ext' =>
+      right
+      subst hex
+      have hce : c = e := by
+        rw [hrest'] at hhd; simpa using hhd.symm
+      subst hce
+      rcases hc with hc | hc
+      · subst hc
+        have := hall cr (by simp)
+        simp [notCtl, cr, ht] at this
+      · subst hc
+        exact ⟨by simp, by rw [List.all_eq_true]; exact hall⟩
+
+/-- **soundness of the chunk-size line validator against the grammar**: every line (ending in LF) the decoder
+    accepts with size `n` is a `SizeLine` of value `n` -/
+theorem ckParseLine_sound (p : Bytes) (n : Nat) (h : ckParseLine (p ++ [lf]) = .ok n) : SizeLine (p ++ [lf]) n := by
+  generalize hl : p ++ [lf] = line at h ⊢
+  unfold ckParseLine at h
+  split at h
+  · simp at h
+  · rename_i v k hck
+    simp only at h
+    split at h
+    · simp at h
+    · rename_i hk0
+      split at h
+      · simp at h
+      · rename_i hcr
+        have hcr' : line.getD (line.length - 2) 0 = cr := by simpa using hcr
+        repeat' split at h
+        all_goals first
+          | (simp at h; done)
+          | (exfalso; simp_all; done)
+          | (simp only [Except.ok.injEq] at h
+             subst h
+             refine sizeLine_of_facts p line _ k hl hck hk0 hcr' (by omega) ?_
+             first
+               | (left; assumption)
+               | (right
+                  rename_i _ c hhd hbad _
+                  simp only [Bool.not_eq_true', Bool.not_eq_false, Bool.and_eq_true, Bool.or_eq_true,
+                             decide_eq_true_eq] at hbad
+                  refine ⟨c, hhd, hbad.1, fun x hx => ?_⟩
+                  have := List.all_eq_true.mp hbad.2 x hx
+                  simpa [notCtl] using this))
+
 end LtVerif
